@@ -6,6 +6,7 @@ CONSTANTS
   Ttl = 8
   Depth = 4
   OnlyEnds = FALSE
+  SortFirst = TRUE
 SPECIFICATION RSpec
 INVARIANT Emit
 INVARIANT CInv
